@@ -1,3 +1,83 @@
-From KS Require Import lib.Base model.ReadPath.
+(* C04 - A fetch below the high watermark always makes progress.
+   Only statements closed by [exact]; proofs live in proofs/ReadPathProofs.v.
+   The model is of the tree with fixes/C04-find-index-entry-floor.patch applied.
+   The full statement is REFUTED on that tree (open finding
+   "sparse-index-entry-before-offset+maxbytes-le-distance"); it is proved on the
+   complement of the finding's input class. *)
+From KS Require Import lib.Base model.ReadPath proofs.ReadPathProofs.
 Open Scope Z_scope.
-Example C04_nonvacuous : True. Proof. exact I. Qed.
+
+(* The property: for every history, index interval, cache state, fetch offset o at or
+   below the last offset of some live batch, and positive byte limit, Read succeeds
+   and the result reaches past the start of the first live batch ending at or after o
+   (the batch holding o, or the first batch after o when o is in a gap). *)
+Definition C04_progress_statement : Prop :=
+  forall iv rq start ops cached o max,
+    Forall valid_op ops ->
+    let l := run (init_log iv rq start) ops in
+    0 < max -> (exists b, In b (live l) /\ o <= b_last b) ->
+    exists d, read l cached o max = ROk d /\ progress_run (live l) o d.
+
+Definition p61 (marker : Z) (lod : Z) : bytes :=
+  repeat marker 23 ++ u32 lod ++ repeat marker 30 ++ u32 (lod + 1).
+
+(* Refuted: index interval 2, four one-record 61-byte batches in one segment (index
+   entries at offsets 0 and 2), Read(offset 1, maxBytes 61) returns exactly batch 0:
+   only records before the fetch offset, on both the cached and the range-read path. *)
+Theorem C04_progress_refuted : ~ C04_progress_statement.
+Proof.
+  intros H.
+  set (ops := [OAppend (p61 1 0); OAppend (p61 2 0); OAppend (p61 3 0); OAppend (p61 4 0); OPrepare 0 0; OCommit]).
+  assert (Hv : Forall valid_op ops) by (repeat constructor; intros _; vm_compute; discriminate).
+  assert (Hex : exists b, In b (live (run (init_log 2 false 0) ops)) /\ 1 <= b_last b).
+  { exists (nth 1 (live (run (init_log 2 false 0) ops)) dflt). split; vm_compute; [right; left; reflexivity|discriminate]. }
+  destruct (H 2 false 0 ops false 1 61 Hv eq_refl Hex) as (d & Hr & Hp).
+  apply progress_run_b in Hp. vm_compute in Hr. injection Hr as <-. vm_compute in Hp. discriminate.
+Qed.
+Print Assumptions C04_progress_refuted.
+
+(* Partial: the statement holds whenever maxBytes exceeds [entry_distance] - the
+   bytes between the position of the index entry Read starts from and the start of
+   the batch holding o.  The distance is 0 when the index has an entry at that batch
+   and for every read served from the flush window or the write buffer; so the only
+   failing inputs are "index entry strictly before the batch holding o and
+   maxBytes <= distance", the open finding. *)
+Theorem C04_progress_partial : forall iv rq start ops cached o max,
+  Forall valid_op ops ->
+  let l := run (init_log iv rq start) ops in
+  0 < max -> (exists b, In b (live l) /\ o <= b_last b) ->
+  entry_distance l o < max ->
+  exists d, read l cached o max = ROk d /\ progress_run (live l) o d.
+Proof. exact read_progress_partial. Qed.
+Print Assumptions C04_progress_partial.
+
+(* A read below the end of the live log never fails, for any byte limit. *)
+Theorem C04_read_succeeds : forall iv rq start ops cached o max,
+  Forall valid_op ops ->
+  let l := run (init_log iv rq start) ops in
+  (exists b, In b (live l) /\ o <= b_last b) -> exists d, read l cached o max = ROk d.
+Proof.
+  intros iv rq start ops cached o max Hv l Hex.
+  exact (read_ok start l cached o max (inv_run start ops _ Hv (inv_init iv rq start)) Hex).
+Qed.
+Print Assumptions C04_read_succeeds.
+
+(* The defect fixed by fixes/C04-find-index-entry-floor.patch: HEAD's binary search
+   (`mid+1 <= hi`) falls through to entries[0]; the fixed one returns the floor entry. *)
+Example C04_head_find_entry_witness :
+  let es := map (fun o => mkEntry o (32 + 70 * (o / 3))) [0; 3; 6; 9; 12] in
+  ie_off (find_entry_head es 4) = 0 /\ ie_off (find_entry es 4) = 3 /\
+  ie_off (find_entry_head es 5) = 0 /\ ie_off (find_entry es 5) = 3 /\
+  map (fun o => ie_off (find_entry es o)) [0; 1; 2; 3; 7; 8; 10; 11; 12; 13; 99] = [0; 0; 0; 3; 6; 6; 9; 9; 12; 12; 12].
+Proof. vm_compute. repeat split. Qed.
+
+(* non-vacuity of the partial theorem: same log as the refutation; maxBytes 62 > 61 =
+   distance makes progress, and offset 2 has an index entry (distance 0) *)
+Example C04_nonvacuous :
+  let ops := [OAppend (p61 1 0); OAppend (p61 2 0); OAppend (p61 3 0); OAppend (p61 4 0); OPrepare 0 0; OCommit] in
+  let l := run (init_log 2 false 0) ops in
+  entry_distance l 1 = 61 /\ entry_distance l 2 = 0 /\ entry_distance l 3 = 61 /\
+  (exists d, read l false 1 62 = ROk d /\ progress_b (live l) 1 d = true) /\
+  (exists d, read l true 2 1 = ROk d /\ progress_b (live l) 2 d = true) /\
+  (exists d, read l true 1 61 = ROk d /\ progress_b (live l) 1 d = false).
+Proof. vm_compute. repeat split; eexists; split; reflexivity. Qed.
